@@ -13,13 +13,15 @@ import (
 
 func init() {
 	register("C21", func(r *Report) {
-		r.Explanation = "Encoder/decoder table agreement, which is necessary for round-trip equality and sufficient for every field whose handling is value independent. Decided: (R1) for each of the 28 packet types and each variant the codec branches on (topic-ID type, DISCONNECT duration zero/non-zero, empty WILLTOPIC), the ordered buffer writes of Pack and the (field <- buffer position) stores of the single accepting Unpack path list the same fields at the same offsets and widths; (R2) every flag field uses the same mask and shift in encodeFlags and decodeFlags, masks are disjoint, booleans occupy their whole mask; (R3) the length handed to the header equals the number of bytes written and is set before the header is written; (R4) the type tag in each constructor equals the tag NewPacketWithHeader maps to that struct, tags are distinct; (R5) SetVarPartLength, HeaderLength, PackToBuffer and Header.Unpack switch between the 2- and 4-byte header forms at the same total length (255) and use the same byte positions; (R6) the short-topic codec moves byte 0 to the high octet and byte 1 to the low octet in both directions and never goes through rune/UTF-8 conversions; IsShortTopic accepts exactly the names of two bytes; (R7) the receive buffer holds every datagram a sender may produce (C22-R3). Not decided: equality for every field value (e.g. lengths above 65535, reported under C23)."
+		r.Explanation = "Encoder/decoder table agreement, which is necessary for round-trip equality and sufficient for every field whose handling is value independent. Decided: (R1) for each of the 28 packet types and each variant the codec branches on (topic-ID type, DISCONNECT duration zero/non-zero, empty WILLTOPIC), the ordered buffer writes of Pack and the (field <- buffer position) stores of the single accepting Unpack path list the same fields at the same offsets and widths; (R2) every flag field uses the same mask and shift in encodeFlags and decodeFlags, masks are disjoint, booleans occupy their whole mask; (R3) the length handed to the header equals the number of bytes written and is set before the header is written; (R4) the type tag in each constructor equals the tag NewPacketWithHeader maps to that struct, tags are distinct; (R5) SetVarPartLength, HeaderLength, PackToBuffer and Header.Unpack switch between the 2- and 4-byte header forms at the same total length (255) and use the same byte positions; (R6) the short-topic codec moves byte 0 to the high octet and byte 1 to the low octet in both directions and never goes through rune/UTF-8 conversions; IsShortTopic accepts exactly the names of two bytes; (R7) the receive buffer holds every datagram a sender may produce (C22-R3); (R8) no Unpack can panic (C20's bounds obligations of the decoders, re-run here: a decoder that panics on a legal field value does not return the original packet); (R9) the boundary case of R1: with every variable-length field one octet long the decoder accepts what the encoder produces, at the same offsets. Not decided: equality for every field value (e.g. lengths above 65535, reported under C23)."
 		r.floor("R1", 28)
 		r.floor("R2", 5)
 		r.floor("R3", 28)
 		r.floor("R4", 28)
 		r.floor("R5", 8)
 		r.floor("R6", 3)
+		r.floor("R8", 30)
+		r.floor("R9", 10)
 	}, checkC21)
 	register("C22", func(r *Report) {
 		r.Explanation = "Decided: (R1) for each packet type and variant the single accepting decoder path reads every field from the byte position the MQTT-SN 1.2 message format (and doc/auth.md for AUTH) assigns to it - the specification table is frozen in the checker, one line per field; (R2) the body is sliced at the size of the header form that Header.Unpack actually parsed: for the long form (first octet 0x01) HeaderLength yields 4 whatever the length value, for the short form 2, and ReadPacket slices the very buffer it handed to Header.Unpack; the type is read at offset 3 resp. 1; (R3) the whole datagram is decoded: the buffer ReadPacket hands to the connection's Read is at least as long as the longest datagram a bisquitt sender lets through and as MaxPayloadLength plus the longest fixed part, so no legal datagram is truncated and then decoded as if complete. Not decided: semantic validity of the decoded values."
@@ -204,6 +206,63 @@ func checkC21(c *Ctx, r *Report) {
 	cm.checkShortTopic(r, "R6")
 	cm.checkIsShortTopic(r, "R6")
 	importRules(c, r, "C22", map[string]string{"R3": "R7"})
+	// R8: decoding never panics, so in particular not on the encoding of a legal packet (C20's bounds obligations for
+	// the decoders, re-run here): a decoder that panics on some legal field value does not "yield a packet equal to the original"
+	importRulesF(c, r, "C20", map[string]string{"R1": "R8"}, func(rule, key string) bool { return strings.Contains(key, ".Unpack:") || strings.Contains(key, "Unpack") })
+	// R9: the smallest legal packets: every variable-length field one octet long (names such as "#", "a"; a one-octet
+	// payload) - the decoder must accept exactly what the encoder produces, at the same offsets
+	for _, t := range cm.types {
+		name := strings.TrimPrefix(t, "*packets1.")
+		pack := cm.method(t, "Pack")
+		if pack == nil {
+			continue
+		}
+		pos := c.pos(pack.Pos())
+		for _, v := range cm.variants(t) {
+			hasVar := false
+			mv := codecVariant{Name: v.Name, Cells: map[string]aval{}}
+			for k, a := range v.Cells {
+				if strings.HasPrefix(k, "len:f:") && a.known && a.i == varLen {
+					a = kint(1)
+					hasVar = true
+				}
+				mv.Cells[k] = a
+			}
+			if !hasVar {
+				continue
+			}
+			key := name
+			if v.Name != "" {
+				key += "[" + v.Name + "]"
+			}
+			key += ":one-octet-fields"
+			enc := cm.encode(t, mv)
+			if enc.Err != "" {
+				r.undecided("R9", key, pos, "encoder not understood: "+enc.Err)
+				continue
+			}
+			S := bodySize(enc.Items)
+			extra := map[string]aval{}
+			for _, it := range enc.Items {
+				if strings.HasPrefix(it.Field, "len(") {
+					f := strings.TrimSuffix(strings.TrimPrefix(it.Field, "len("), ")")
+					if lc, ok := mv.Cells["len:f:"+strings.TrimPrefix(t, "*")+"."+f]; ok {
+						extra[fmt.Sprintf("buf[%d]", it.Off)] = lc
+					}
+				}
+			}
+			dec := cm.decode(t, mv, S, extra)
+			if dec.Err != "" {
+				r.bad("R9", key, pos, fmt.Sprintf("the decoder does not accept the smallest legal packet of this variant (%d body bytes, every variable-length field one octet long) although the encoder produces it: %s", S, dec.Err))
+				continue
+			}
+			if mism := compareLayouts(enc.Items, dec.Items, dec.Used, cm.flagsOffset(t)); mism != "" {
+				r.bad("R9", key, pos, "encoder and decoder disagree on the smallest legal packet: "+mism+"; encoder "+itemsStr(enc.Items)+"; decoder "+itemsStr(dec.Items))
+				continue
+			}
+			r.ok("R9", key, pos, itemsStr(enc.Items))
+		}
+	}
 }
 
 // checkIsShortTopic: the predicate every resolver uses to decide that a name
